@@ -131,6 +131,77 @@ def run(ctx):
     if traces:
         ctx.sample({"trace": traces[0]}, cap=8)
 
+    # ---- code -> spec: every formula the repository's own tests parse, judged by the full spec
+    _suite_stage(ctx)
+
+
+SUITE_TESTS = ["chempy/util/tests/test_parsing.py", "chempy/tests/test_chemistry.py",
+               "chempy/tests/test_reactionsystem.py"]
+
+
+def suite_traces(ctx, targets, want_fn):
+    """Calls the repository's own tests make -> (traces, records); strings the independent lexer
+    cannot place in the grammar are counted out-of-model."""
+    import suite
+    recs, summ = suite.record_suite(SUITE_TESTS, targets)
+    ctx.notes.append({"suite": summ})
+    seen, out = set(), []
+    for r in recs:
+        if r.get("fn") != want_fn or r.get("not_observed"):
+            continue
+        a = r.get("args")
+        if not (isinstance(a, list) and len(a) == 1 and isinstance(a[0], str)) or r.get("kwargs", {}).get("dict"):
+            ctx.skip("suite-call-with-options")
+            continue
+        if a[0] in seen:
+            continue
+        seen.add(a[0])
+        toks = fc.lex(a[0], _symbols())
+        if toks is None:
+            ctx.skip("suite-string-outside-modelled-notation")
+            continue
+        out.append((a[0], toks, r))
+    return out
+
+
+def _suite_stage(ctx):
+    items = suite_traces(ctx, ["chempy.util.parsing:formula_to_composition"],
+                         "chempy.util.parsing:formula_to_composition")
+    traces, meta = [], []
+    for text, toks, r in items:
+        if r["ok"]:
+            d = {k: v for k, v in r["result"].get("dict", [])} if isinstance(r["result"], dict) else None
+            if d is None:
+                ctx.skip("suite-unprojectable-result")
+                continue
+            o = fc.project_composition(d)
+            if "unencodable" in o:
+                ctx.skip("suite-unencodable-result")
+                continue
+            o["raised"] = False
+        else:
+            o = {"raised": True}
+        ev = {"k": "result", "txt": text.replace(fc.MIDDOT, "~"), "raised": o["raised"],
+              "comp": o.get("comp", []), "q": o.get("q", 0), "shown": [], "mass9": []}
+        traces.append(toks + [ev])
+        meta.append((text, o))
+    if not traces:
+        return
+    verdicts = ctx.validate_traces("FormulaTrace", "FormulaTrace.cfg", traces)
+    for tr, (text, o), (v, pos, clause) in zip(traces, meta, verdicts):
+        if v == "accept":
+            ctx.ran("suite:" + text, nontrivial=len(tr) > 3)
+            ctx.counters["suite_calls_judged"] += 1
+            continue
+        if clause.startswith("step:") or clause in ("text", "notdone", "no-result-event"):
+            ctx.skip("suite-string-outside-modelled-notation")
+            ctx.traces_validated -= 1
+            continue
+        ctx.violation({"fn": "formula_to_composition", "txt": text, "clause": clause, "source": "repo-suite"},
+                      {"direction": "code->spec", "trace": tr, "observed": o,
+                       "verdict": {"verdict": v, "pos": pos, "clause": clause}, "tlc_cfg": "FormulaTrace.cfg"})
+    ctx.sample({"suite_trace": traces[0]}, cap=8)
+
 
 def replay(ctx, rec):
     if rec.get("direction") == "spec->code":
